@@ -907,4 +907,40 @@ theorem setLinks_spec {l : Loader} (hl : Consistent l) (fromF : Frag) :
           rw [followWords_link hws hfl, h3]
           cases followWords l ign [] rest <;> rfl
 
+/-- `__set_links` writes, position by position, the link `create_link` gives for the member in the
+fragment it was handed with -/
+theorem setLinks_pointwise (fromF : Frag) :
+    ∀ (ts : List (Frag × El)) (ss : List Str), setLinks fromF ts = .ok ss →
+      ss.length = ts.length ∧
+      ∀ (k : Nat) (h1 : k < ts.length) (h2 : k < ss.length),
+        createLink fromF ts[k].1 ts[k].2 = .ok ss[k] := by
+  intro ts
+  induction ts with
+  | nil =>
+    intro ss h
+    simp only [setLinks, Except.ok.injEq] at h
+    subst h
+    exact ⟨rfl, fun k h1 => absurd h1 (Nat.not_lt_zero k)⟩
+  | cons p ps ih =>
+    intro ss h
+    obtain ⟨toF, b⟩ := p
+    simp only [setLinks] at h
+    cases hc : createLink fromF toF b with
+    | error e => simp [hc] at h
+    | ok s =>
+      simp only [hc] at h
+      cases hr : setLinks fromF ps with
+      | error e => simp [hr] at h
+      | ok r =>
+        simp only [hr, Except.ok.injEq] at h
+        subst h
+        obtain ⟨hlen, hpt⟩ := ih r hr
+        refine ⟨by simp [hlen], ?_⟩
+        intro k h1 h2
+        cases k with
+        | zero => simpa using hc
+        | succ k =>
+          simp only [List.getElem_cons_succ]
+          exact hpt k (by simpa using h1) (by simpa using h2)
+
 end Capella.Links
